@@ -239,7 +239,7 @@ def replay(case, ctx):
 
 
 def plan(tier, seed):
-    n, per = (16, 650) if tier == "quick" else (16, 32000)
+    n, per = (16, 2500) if tier == "quick" else (16, 32000)
     return [{"kind": "text", "n": per} for _ in range(n)]
 
 
